@@ -1,6 +1,8 @@
 package types
 
 import (
+	"errors"
+
 	"cosmossdk.io/math"
 	sdk "github.com/cosmos/cosmos-sdk/types"
 )
@@ -22,6 +24,10 @@ func (p *Pool) ExitPool(ctx sdk.Context, oracleKeeper OracleKeeper, accountedPoo
 // updates the pool's liquidity and totalShares.
 func (p *Pool) processExitPool(_ sdk.Context, exitingCoins sdk.Coins, exitingShares math.Int) error {
 	balances := p.GetTotalPoolLiquidity().Sub(exitingCoins...)
+	// Coins.Sub drops a denom whose amount became zero; its pool asset would then keep its old balance below
+	if len(balances) != len(p.PoolAssets) {
+		return errors.New("exit would take the pool's balance of a token to zero")
+	}
 	if err := p.UpdatePoolAssetBalances(balances); err != nil {
 		return err
 	}
